@@ -37,7 +37,10 @@ Vis == {"same_file_late", "conftest", "same_file", "parent_conftest", "sibling_c
         "module_level_name", "imported_name", "module_function"}
 Shapes == {"no_params", "one_param", "many_params", "default_param", "annotated_param", "return_annot", "return_annot_params",
            "multiline", "multiline_trailing_comma", "trailing_comma", "method", "async_fn", "decorated", "star_args", "kwargs",
-           "kwonly", "comment_after_colon", "fixture_fn", "followed_by_other_fn",
+           "kwonly", "comment_after_colon", "comment_with_parens", "fixture_fn", "followed_by_other_fn",
+           \* the use stands in a HELPER nested in the test: whether it is flagged is left open, but an offered fix must make the
+           \* fixture a parameter of the TEST and leave the helper alone
+           "nested_helper",
            \* ONE code-action request carrying several warnings: two methods of the same name in different classes,
            \* two different functions, two uses in one function -- every offered fix edits the function of ITS warning
            "multi_same_named_methods", "multi_two_functions", "multi_two_uses"}
